@@ -192,7 +192,7 @@ theorem attr_size_eq_emit' (cx : Ctx) (a : Offs) (pos : Nat) (v : AttrVal) (sz :
   | sdata x =>
     simp only [attrSize, attrEmit, Out.ok.injEq] at hs he
     rw [← he, ← hs]; simp [Emit.ofBytes, encodeS_length]
-  | udata x | constClass x =>
+  | udata x | constClass x | fileIndex x =>
     simp only [attrSize, attrEmit, Out.ok.injEq] at hs he
     rw [← he, ← hs]; simp [Emit.ofBytes, encodeU_length]
   | implicitConst x =>
@@ -308,7 +308,7 @@ theorem attrEmit_starts (cx : Ctx) (pos : Nat) (v : AttrVal) (em : Emit)
   cases v <;> simp only [attrEmit] at h
   case addressSym | debugInfoRefSym => simp at h
   case block | data1 | data2 | data4 | data8 | data16 | sdata | implicitConst | udata | flag
-      | flagPresent | debugTypesRef | string | constClass =>
+      | flagPresent | debugTypesRef | string | constClass | fileIndex =>
     simp only [Out.ok.injEq] at h; rw [← h]; rfl
   case lineProgramRef =>
     cases hl : cx.lineProgram with
@@ -1226,7 +1226,7 @@ theorem attrEmit_placed (cx : Ctx) (pos : Nat) (v : AttrVal) (em : Emit) (h : at
   cases v <;> simp only [attrEmit] at h
   case addressSym | debugInfoRefSym => simp at h
   case block | data1 | data2 | data4 | data8 | data16 | sdata | implicitConst | udata | flag
-      | flagPresent | debugTypesRef | string | constClass =>
+      | flagPresent | debugTypesRef | string | constClass | fileIndex =>
     simp only [Out.ok.injEq] at h; subst h; simp [holesU, holesI, Placed, Emit.ofBytes]
   case lineProgramRef =>
     cases hl : cx.lineProgram with
